@@ -1,6 +1,24 @@
+import G3D.Proofs.SolverTie
+import G3D.Proofs.SolverTieGauss
 import G3D.Props.C16
 #print axioms G3D.Props.C16.truthy_iff_consistent
 #print axioms G3D.Props.C16.call_returns_solution
 #print axioms G3D.Props.C16.parameters_read_back
 #print axioms G3D.Props.C16.every_solution_reached
 #print axioms G3D.Props.C16.elimination_preserves_solutions
+#print axioms G3D.SolverTie.null_shape_tie
+#print axioms G3D.SolverTie.shape_tie
+#print axioms G3D.SolverTie.find_pivot_row_tie
+#print axioms G3D.SolverTie.gaussian_elimination_tie
+#print axioms G3D.SolverTie.nullrow_tie
+#print axioms G3D.SolverTie.count_tie
+#print axioms G3D.SolverTie.index_tie
+#print axioms G3D.SolverTie.first_nonzero_tie
+#print axioms G3D.SolverTie.init_tie
+#print axioms G3D.SolverTie.bool_tie
+#print axioms G3D.SolverTie.nonzero_tie
+#print axioms G3D.SolverTie.call_tie
+#print axioms G3D.SolverTie.solve_tie
+#print axioms G3D.SolverTie.solution_fields
+#print axioms G3D.SolverTie.solve_call_tie
+#print axioms G3D.SolverTie.solve_bool_tie
